@@ -158,7 +158,7 @@ def _task(task):
         try:
             with case_alarm(120):
                 doc = make_doc(item)
-                for style in (STYLES if (j + task["base"]) % 3 == 0 or item[0] == "trees" else (STYLES[(j + task["base"]) % 5],)) if item[0] != "extra" else (STYLES[(j + task["base"]) % 5], "xtce")[:1 + (j % 2)]:
+                for style in (STYLES if (j + task["base"]) % 4 == 0 or item[0] == "trees" else (STYLES[(j + task["base"]) % 5],)) if item[0] != "extra" else (STYLES[(j + task["base"]) % 5], "xtce")[:1 + (j % 2)]:
                     for via in ("xml", "objects"):
                         case = {"family": item[0], "item": item[1], "style": style, "via": via, "use_write_xml": (j + task["base"]) % 4 == 0}
                         try:
@@ -231,9 +231,11 @@ def cross_process(t: Tally, tier):
 
 def run(ctx):
     items = docs_for(ctx.tier)
-    chunks = chunked(items, 96)
+    # the attribute-coverage documents are the big ones: they go in small tasks that start first
+    heavy = [it for it in items if it[0] == "extra"]
+    light = [it for it in items if it[0] != "extra"]
     tasks, base = [], 0
-    for ch in chunks:
+    for ch in chunked(heavy, 6) + chunked(light, 48):
         tasks.append({"items": ch, "base": base})
         base += len(ch)
     tally = fan_out(_task, tasks, jobs=ctx.jobs, seed=ctx.seed)
@@ -245,7 +247,7 @@ def run(ctx):
         "programs": tally.programs,
         "exhaustive": True,
         "bound": (f"{len(items)} documents of the C09 family (palette kinds alone / ordered pairs, container trees, the attribute-coverage families) x namespace configurations "
-                  "{prefix xtce, upper-case prefix XTCE, default namespace, none} (all four for every third document and all trees, one rotating otherwise) x "
+                  "{prefix xtce, upper-case prefix XTCE, default namespace, none} and the XTCE prefix among five unrelated namespace declarations (all five for every fourth document and all trees, one rotating otherwise) x "
                   "{loaded from XML, built from objects}; 3 write/load cycles each; the last definitions (one per namespace convention and origin, up to three) are written once more after every later document was loaded and cycled; a sample re-serialized in two subprocesses with different PYTHONHASHSEED"),
         "rule": ("one evaluation = one document/config taken through G1..G4; states = distinct serializations reached; transitions = write and load "
                  "steps; traces = complete cycles compared"),
